@@ -6,7 +6,7 @@ import json
 # RegType numbers (checked against the dump by tools/checks/c13.py: REGTYPE_NAMES order of harness/c13_dump.cpp)
 RT = {"gpb_lo": 2, "gpb_hi": 3, "gpw": 4, "gpd": 5, "gpq": 6, "xmm": 11, "ymm": 12, "zmm": 13, "k": 16, "tmm": 17,
       "sreg": 25, "creg": 26, "dreg": 27, "mm": 28, "st": 29, "bnd": 30, "pc": 31, "label": 1}
-OPT = {"lock": 8192, "xacquire": 65536, "xrelease": 131072, "rep": 16384, "repne": 32768, "z": 8388608, "er": 262144, "sae": 524288}
+OPT = {"evex": 4096, "lock": 8192, "xacquire": 65536, "xrelease": 131072, "rep": 16384, "repne": 32768, "z": 8388608, "er": 262144, "sae": 524288}
 
 CLASS_REG = {"r8": ("gpb_lo", 3), "r16": ("gpw", 3), "r32": ("gpd", 3), "r64": ("gpq", 3), "xmm": ("xmm", 3), "ymm": ("ymm", 3), "zmm": ("zmm", 3),
              "mm": ("mm", 3), "k": ("k", 3), "sreg": ("sreg", 3), "creg": ("creg", 3), "dreg": ("dreg", 3), "st(i)": ("st", 3), "st(0)": ("st", 0),
@@ -165,6 +165,17 @@ def instantiate(forms, name_to_id, rng, tier):
                 variants.append(("db-decor", base_k + ["{er}"], base_t, OPT["er"], None))
             if f["sae"] and not any(t.startswith("M ") for t in base_t):
                 variants.append(("db-decor", base_k + ["{sae}"], base_t, OPT["sae"], None))
+            # {evex}: for EVEX forms that are not APX promotions of legacy/VEX instructions (AsmJit does not implement APX)
+            if (f.get("opcode") or "").startswith("EVEX") and "APX_F" not in f.get("ext", []):
+                variants.append(("db-decor", base_k + ["{evex}"], base_t, OPT["evex"], None))
+            # rounding / exception suppression together with masking
+            if f["kmask"] and not any(t.startswith("M ") for t in base_t):
+                if f["er"]:
+                    variants.append(("db-decor", base_k + ["{er}{k}"], base_t, OPT["er"], (RT["k"], 3)))
+                    if f["zmask"]:
+                        variants.append(("db-decor", base_k + ["{er}{k}{z}"], base_t, OPT["er"] | OPT["z"], (RT["k"], 3)))
+                if f["sae"]:
+                    variants.append(("db-decor", base_k + ["{sae}{k}"], base_t, OPT["sae"], (RT["k"], 3)))
             # embedded broadcast: per form (= per vector length) the {1toN} the database implies, N = memSize / bcstSize, incl. the
             # sub-128-bit cases (m64/b32 -> {1to2}, m64/b16 -> {1to4}, m32/b16 -> {1to2}); with the element size given and omitted, and under {k}
             bcst_muts = []
@@ -204,6 +215,36 @@ def instantiate(forms, name_to_id, rng, tier):
                     variants.append(("db-decor", v[1] + ["addr32"], [(" ".join(t.split()[:2] + [str(RT["gpd"]) if t.split()[2] == str(RT["gpq"]) else t.split()[2]] + t.split()[3:4]
                                                                               + [str(RT["gpd"]) if t.split()[4] == str(RT["gpq"]) else t.split()[4]] + t.split()[5:])
                                                                      if t.startswith("M ") else t) for t in v[2]], 0, None))
+            # scale factors, 16-bit addressing (32-bit mode), registers 16..31 of EVEX-only forms
+            for v in has_mem_variant[:1]:
+                if not any(o["memOff"] or o.get("memRegOnly") or o["memSeg"] for o in expl):
+                    for sh in (1, 2, 3):
+                        def scaled(t, sh=sh):
+                            q = t.split()
+                            if q[0] != "M" or q[2] == "0":
+                                return t
+                            if q[4] == "0":
+                                q[4] = q[2]; q[5] = "6"
+                            q[6] = str(sh)
+                            return " ".join(q)
+                        st_ = [scaled(t) for t in v[2]]
+                        if st_ != v[2] and not any(t.startswith("M ") and t.split()[4] == "0" for t in st_):
+                            variants.append(("db-decor", v[1] + ["idx*%d" % (1 << sh)], st_, 0, None))
+                    if mode == 0 and not any(o["mem"].startswith("vm") or o["mem"] in ("mib", "tmem") for o in expl if o["mem"]):
+                        variants.append(("db-decor", v[1] + ["addr16"], [(" ".join(t.split()[:2] + [str(RT["gpw"])] + t.split()[3:]) if t.startswith("M ") else t) for t in v[2]], 0, None))
+            if mode == 1 and (f.get("opcode") or "").startswith("EVEX"):
+                def hi2(t):
+                    q = t.split()
+                    if q[0] == "R" and int(q[1]) in (RT["xmm"], RT["ymm"], RT["zmm"]) and q[2] == "3":
+                        return "R %s 19" % q[1]
+                    if q[0] == "M" and int(q[4]) in (RT["xmm"], RT["ymm"], RT["zmm"]):
+                        q[5] = "21"
+                        return " ".join(q)
+                    return t
+                for v in variants[:2]:
+                    ht = [hi2(t) for t in v[2]]
+                    if ht != v[2] and v[0] == "db":
+                        variants.append(("db-decor", v[1] + ["v16-31"], ht, 0, None))
             if mode == 1:
                 def hi(t):
                     q = t.split()
@@ -262,6 +303,8 @@ def instantiate(forms, name_to_id, rng, tier):
                 else:
                     muts.append(("k0", key, ts, opt, (RT["k"], 0)))
                     muts.append(("k-not-mask", key, ts, opt, (RT["gpd"], 3)))
+                if not (f.get("opcode") or "").startswith("EVEX"):
+                    muts.append(("evex", key, ts, opt | OPT["evex"], extra))
                 if not f["er"]:
                     muts.append(("er", key, ts, opt | OPT["er"], extra))
                 if not f["sae"]:
@@ -280,3 +323,138 @@ def instantiate(forms, name_to_id, rng, tier):
 
 def load_forms(text):
     return [json.loads(l) for l in text.splitlines() if l.strip()]
+
+
+# ------------------------------------------------------------------ database rows at the operand-KIND level (for C13_signature_rows_present)
+OF = {"gpb_lo": 1, "gpb_hi": 2, "gpw": 4, "gpd": 8, "gpq": 0x10, "xmm": 0x20, "ymm": 0x40, "zmm": 0x80, "mm": 0x100, "k": 0x200, "sreg": 0x400,
+      "creg": 0x800, "dreg": 0x1000, "st": 0x2000, "bnd": 0x4000, "tmm": 0x8000}
+OF_MEM = {0: 0x40000, 8: 0x80000, 16: 0x100000, 32: 0x200000, 48: 0x400000, 64: 0x800000, 80: 0x1000000, 128: 0x2000000, 256: 0x4000000, 512: 0x8000000}
+OF_VM = {"vm32x": 0x40000000, "vm32y": 0x80000000, "vm32z": 0x100000000, "vm64x": 0x200000000, "vm64y": 0x400000000, "vm64z": 0x800000000}
+OF_IMM = {(4, "s"): 0x1000000000, (4, "u"): 0x2000000000, (8, "s"): 0x4000000000, (8, "u"): 0x8000000000, (16, "s"): 0x10000000000, (16, "u"): 0x20000000000,
+          (32, "s"): 0x40000000000, (32, "u"): 0x80000000000, (64, "s"): 0x100000000000, (64, "u"): 0x200000000000}
+OF_REL = {8: 0x400000000000, 32: 0x800000000000}
+OF_IMPLICIT = 1 << 55
+OF_MEMBASE = 1 << 48
+
+
+def db_operand_need(o):
+    """list of alternatives [(label, flags an admitting signature operand must contain, fixed-register bit or 0)] or None"""
+    alts = []
+    impl = OF_IMPLICIT if o["implicit"] else 0
+    if o["reg"]:
+        r = o["reg"]
+        if r == "st(0)":
+            alts.append((r, OF["st"] | impl, 1))
+        elif r in CLASS_REG:
+            alts.append((r, OF[CLASS_REG[r][0]] | impl, 0))
+        elif r in FIXED_REG:
+            cls, rid = FIXED_REG[r]
+            alts.append((r, OF[cls] | impl, 1 << rid))
+        else:
+            return None
+    if o["mem"]:
+        m = o["mem"]
+        mb = OF_MEMBASE if o.get("memRegOnly") else 0     # "[reg]" only: no index, no displacement (kFlagMemBase)
+        if m in OF_VM:
+            alts.append((m, OF_VM[m] | impl, 0))
+        elif m in ("mib", "tmem", "mem"):
+            alts.append((m, OF_MEM[0] | impl | mb, 0))
+        elif m in MEM_SIZES and MEM_SIZES[m] * 8 in OF_MEM:
+            alts.append((m, OF_MEM[MEM_SIZES[m] * 8] | impl | mb, 0))
+        else:
+            return None
+    if o["imm"]:
+        if o["immValue"] is not None:
+            return None            # an immediate fixed by the opcode ("shl r, 1"): AsmJit has no such operand kind
+        need = 0
+        if o["immSign"] in ("any", "signed"):
+            need |= OF_IMM[(o["imm"], "s")]
+        if o["immSign"] in ("any", "unsigned"):
+            need |= OF_IMM[(o["imm"], "u")]
+        alts.append(("i%d%s" % (o["imm"], o["immSign"][0]), need | impl, 0))
+    if o["rel"]:
+        if o["rel"] not in OF_REL:
+            return None
+        alts.append(("rel%d" % o["rel"], OF_REL[o["rel"]] | impl, 0))
+    return alts or None
+
+
+def db_rows(forms, name_to_id):
+    """database rows expanded to ONE operand kind per operand (register or memory alternative):
+    -> list of (key, inst_id, mode_mask, ((need, fixed, implicit), ...)) and the keys of rows that cannot be expressed"""
+    import itertools
+    rows, unsupported = [], []
+    seen = set()
+    for f in forms:
+        iid = name_to_id.get(f["name"])
+        if iid is None:
+            continue
+        ops = [db_operand_need(o) for o in f["operands"]]
+        if any(x is None for x in ops) or len(ops) > 6:
+            unsupported.append("%s %s" % (f["name"], ",".join(o["data"] for o in f["operands"])))
+            continue
+        mode = 3 if f["arch"] == "ANY" else (2 if f["arch"] == "X64" else 1)
+        for combo in itertools.product(*ops):
+            if sum(1 for i, c in enumerate(combo) if f["operands"][i]["mem"] and c[0] == f["operands"][i]["mem"]) > 1:
+                continue            # at most one memory operand
+            key = "%s %s" % (f["name"], ",".join(("<%s>" % c[0]) if f["operands"][i]["implicit"] else c[0] for i, c in enumerate(combo)))
+            t = (key, iid, mode, tuple((c[1], c[2], 1 if f["operands"][i]["implicit"] else 0) for i, c in enumerate(combo)))
+            if t in seen:
+                continue
+            seen.add(t)
+            rows.append(t)
+    return rows, unsupported
+
+
+def row_present(d, row):
+    """python twin of ValidateModel.row_present (used to NAME a missing row; the deciding evaluation is the Coq one)"""
+    key, iid, mode, ops = row
+    inst = d["x86.inst"]; isig = d["x86.isig"]; osig = d["x86.osig"]
+    sidx, scnt = inst[4 * iid + 2], inst[4 * iid + 3]
+    for r in range(sidx, sidx + scnt):
+        s = isig[9 * r:9 * r + 9]
+        if s[0] != len(ops) or (s[1] & mode) != mode:
+            continue
+        ok = True
+        for k, (need, fixed, impl) in enumerate(ops):
+            fl, mask = osig[2 * s[3 + k]], osig[2 * s[3 + k] + 1]
+            if (fl & need) != need or bool(fl & OF_IMPLICIT) != bool(impl) or bool(fl & OF_MEMBASE) != bool(need & OF_MEMBASE):
+                ok = False; break
+            if need & 0xFFFF:
+                if fixed == 0 and mask != 0:
+                    ok = False; break
+                if fixed != 0 and mask != 0 and not (mask & fixed):
+                    ok = False; break
+        if ok:
+            return True
+    return False
+
+
+def orphan_records(d, rows):
+    """(instruction id, index within the instruction's signature records) of records that admit no database row of the instruction
+    sharing a mode (python twin of ValidateModel.sig_origin; the Coq evaluation decides)"""
+    import collections
+    byinst = collections.defaultdict(list)
+    for r in rows:
+        byinst[r[1]].append(r)
+    inst = d["x86.inst"]; isig = d["x86.isig"]; osig = d["x86.osig"]
+    out = []
+    for iid in range(1, len(inst) // 4):
+        for k in range(inst[4 * iid + 3]):
+            s = isig[9 * (inst[4 * iid + 2] + k):9 * (inst[4 * iid + 2] + k) + 9]
+            ok = False
+            for key, _i, mode, ops in byinst.get(iid, []):
+                if s[0] != len(ops) or (s[1] & mode) == 0:
+                    continue
+                good = True
+                for q, (need, fixed, impl) in enumerate(ops):
+                    fl, mask = osig[2 * s[3 + q]], osig[2 * s[3 + q] + 1]
+                    if (fl & need) != need or bool(fl & OF_IMPLICIT) != bool(impl) or bool(fl & OF_MEMBASE) != bool(need & OF_MEMBASE):
+                        good = False; break
+                    if need & 0xFFFF and ((fixed == 0 and mask != 0) or (fixed and mask and not (mask & fixed))):
+                        good = False; break
+                if good:
+                    ok = True; break
+            if not ok:
+                out.append((iid, k))
+    return out
